@@ -34,6 +34,10 @@ except ImportError:
     Node = Any  # type: ignore[misc,assignment]
 
 
+# comments may sit between an attribute and the item it applies to
+_ATTRIBUTE_RUN_TYPES = ("attribute_item", "line_comment", "block_comment")
+
+
 def _get_node_text(node: Node) -> str:
     """Get decoded text from a node.
 
@@ -56,8 +60,8 @@ def has_test_attribute(function_node: Node) -> bool:
         True if function has #[test] attribute
     """
     prev_sibling = function_node.prev_sibling
-    while prev_sibling is not None and prev_sibling.type == "attribute_item":
-        if "test" in _get_node_text(prev_sibling):
+    while prev_sibling is not None and prev_sibling.type in _ATTRIBUTE_RUN_TYPES:
+        if prev_sibling.type == "attribute_item" and "test" in _get_node_text(prev_sibling):
             return True
         prev_sibling = prev_sibling.prev_sibling
     return False
@@ -73,8 +77,8 @@ def has_cfg_test_attribute(mod_node: Node) -> bool:
         True if module has #[cfg(test)] attribute
     """
     prev_sibling = mod_node.prev_sibling
-    while prev_sibling is not None and prev_sibling.type == "attribute_item":
-        if "cfg(test)" in _get_node_text(prev_sibling):
+    while prev_sibling is not None and prev_sibling.type in _ATTRIBUTE_RUN_TYPES:
+        if prev_sibling.type == "attribute_item" and "cfg(test)" in _get_node_text(prev_sibling):
             return True
         prev_sibling = prev_sibling.prev_sibling
     return False
